@@ -56,6 +56,28 @@ theorem merged_associated_aligned {α β} (base : List (List α)) (assoc : List 
         simp only [List.length_zip, ← h, Nat.min_self] at this ⊢
         exact this
 
+/-- species-indexed values of a merged store whose inputs recorded different species lists read back with the species
+    they were stored with: each trajectory is decoded with the species dimension of its own file -/
+theorem merged_species_per_file (files : List (List String × List (List (Option Int)))) (i : Nat) :
+    locateDecoded files i = (files.map (fun f => f.2.map (decodeSlots f.1))).flatten[i]? := by
+  unfold locateDecoded
+  rw [locate_flatten]
+  have : (files.map (fun f => f.2.map (decodeSlots f.1))).flatten =
+      ((files.map (fun f => f.2.map (fun r => (f.1, r)))).flatten).map (fun p => decodeSlots p.1 p.2) := by
+    induction files with
+    | nil => rfl
+    | cons f fs ih =>
+      simp only [List.map_cons, List.flatten_cons, List.map_append, List.map_map, ih]
+      rfl
+  rw [this, List.getElem?_map]
+
+/-- the code as it was (species list of the first file used for every file): values read back under the wrong species -/
+theorem merged_species_as_is_mislabels :
+    locateDecodedAsIs [(["CO2", "H2O"], [[some 10, some 11]]), (["HC", "NOx", "SO2"], [[some 22, some 20, some 21]])] 1
+      = some [("CO2", 22), ("H2O", 20)] ∧
+    locateDecoded [(["CO2", "H2O"], [[some 10, some 11]]), (["HC", "NOx", "SO2"], [[some 22, some 20, some 21]])] 1
+      = some [("HC", 22), ("NOx", 20), ("SO2", 21)] := by decide
+
 /-- a successful merge produces a directory that announces itself complete and opens as a merged store whose parts are
     exactly the input stores in the order given; its trajectories are therefore the concatenation of the inputs -/
 theorem merge_yields_concatenation (fsys : FS) (inputs : List String) (fs : List (String × StoreFile))
